@@ -113,6 +113,11 @@ PYCLASS = {"int": "IntType", "uint": "UintType", "double": "DoubleType", "bool":
            "duration": "DurationType", "null": "NoneType"}
 
 
+TYPE_NAMES = {"IntType": "int", "UintType": "uint", "DoubleType": "double", "BoolType": "bool", "StringType": "string",
+              "BytesType": "bytes", "ListType": "list", "MapType": "map", "NoneType": "null_type", "NullType": "null_type",
+              "TimestampType": "timestamp", "DurationType": "duration", "TypeType": "type"}
+
+
 def to_cel(a):
     t = a["t"]
     if t == "int":
@@ -166,7 +171,9 @@ def project(v):
         return {"t": "list", "v": [project(x) for x in v], "py": py}
     if isinstance(v, (ct.MapType, dict)):
         return {"t": "map", "v": [[project(k), project(x)] for k, x in v.items()], "py": py}
-    if isinstance(v, type) or isinstance(v, ct.TypeType) or callable(v):
+    if isinstance(v, type):
+        return {"t": "type", "v": TYPE_NAMES.get(v.__name__, v.__name__), "py": py}
+    if isinstance(v, ct.TypeType) or callable(v):
         return {"t": "type", "v": getattr(v, "__name__", str(v)), "py": py}
     return {"t": "other", "v": repr(v)[:100], "py": py}
 
@@ -342,6 +349,8 @@ def lit(a) -> str:
         sign = "-" if us < 0 else ""
         us = abs(us)
         return 'duration("%s%d.%06ds")' % (sign, us // 10**6, us % 10**6) if us % 10**6 else 'duration("%s%ds")' % (sign, us // 10**6)
+    if t == "type":
+        return a["v"]
     raise ValueError(a)
 
 
@@ -392,3 +401,48 @@ def days_from_civil(y, m, d):
     doy = (153 * (m - 3 if m > 2 else m + 9) + 2) // 5 + d - 1
     doe = yoe * 365 + yoe // 4 - yoe // 100 + doy
     return era * 146097 + doe - 719468
+
+
+# ---- abstract program (specs/CelEval.tla AST, wire form) -> CEL source, fully parenthesised
+def render_ast(e) -> str:
+    k = e["k"]
+    if k == "lit":
+        return lit(dec(e["v"]))
+    if k == "var":
+        return e["n"]
+    if k == "list":
+        return "[" + ", ".join(render_ast(x) for x in e["xs"]) + "]"
+    if k == "map":
+        return "{" + ", ".join("%s: %s" % (render_ast(a), render_ast(b)) for a, b in e["es"]) + "}"
+    if k == "un":
+        return "(%s%s)" % (e["op"], atom(e["x"]))
+    if k == "bin":
+        return "(%s %s %s)" % (render_ast(e["l"]), e["op"], render_ast(e["r"]))
+    if k == "cond":
+        return "(%s ? %s : %s)" % (render_ast(e["c"]), render_ast(e["a"]), render_ast(e["b"]))
+    if k == "idx":
+        return "%s[%s]" % (atom(e["x"]), render_ast(e["i"]))
+    if k == "sel":
+        return "%s.%s" % (atom(e["x"]), field(e["f"]))
+    if k == "has":
+        return "has(%s.%s)" % (atom(e["x"]), field(e["f"]))
+    if k == "call":
+        return "%s(%s)" % (e["f"], ", ".join(render_ast(a) for a in e["args"]))
+    if k == "mcall":
+        return "%s.%s(%s)" % (atom(e["x"]), e["f"], ", ".join(render_ast(a) for a in e["args"]))
+    if k == "macro":
+        return "%s.%s(%s, %s)" % (atom(e["x"]), e["m"], e["v"], render_ast(e["body"]))
+    raise ValueError(k)
+
+
+def field(f):
+    return f if isinstance(f, str) else "".join(chr(c) for c in f)
+
+
+def atom(e):
+    s = render_ast(e)
+    if e["k"] in ("var", "list", "map", "call", "idx", "sel", "mcall", "macro", "has") or s.startswith("("):
+        return s
+    if e["k"] == "lit" and e["v"]["t"] in ("list", "map", "string", "bytes", "bool", "null", "timestamp", "duration"):
+        return s
+    return "(" + s + ")"
